@@ -192,8 +192,10 @@ def finish(pid, a, mod, jobs, results, seed, t0, extra=None):
         pc['discharged'] += r.discharged
         pc['paths'] += r.paths
         pc['seconds'] = round(pc['seconds'] + r.seconds, 2)
-        for k in ('queries', 'sat', 'unsat', 'unknown'):
-            solver[k] += r.solver.get(k, 0)
+        for k in ('queries', 'sat', 'unsat', 'unknown',
+                  'linear_stage_queries', 'linear_stage_unsat',
+                  'residual_identically_zero'):
+            solver[k] = solver.get(k, 0) + r.solver.get(k, 0)
         solver['solver_seconds'] = round(
             solver['solver_seconds'] + r.solver.get('solver_seconds', 0), 3)
         solver['max_query_seconds'] = max(
